@@ -42,6 +42,14 @@ CHECKS = {
          "proof", "For every combination of debug x parallel x random_values x logics x optimizer (x priority): initialize() stacks a set equivalent to the default configuration's, selects Optimize/SolverFor/Solver as declared, sets every global z3 option; then validity of returned schedules is C01-C04's (never mentions the configuration). Agreement of z3's answers across logics is z3's soundness (trusted)", "4/C15"),
  "C19": ("contract-based deductive verification: ghost map invariant of the debug path + unsat-core postcondition of solve() over the ghost solver",
          "proof", "In debug mode every asserted formula is tracked under its own name, a mapped name belongs to the constraint owning the formula, unmapped ones are basic rules; on unsat the printed constraints are exactly the owners of the core's formulas and, with the basic rules, cover the core (jointly unsatisfiable by the solver contract); debug does not change the asserted set. Cores: singletons, pairs, whole set (bounded)", "4/C19"),
+ "C09": ("contract-based deductive verification: postcondition on the reported BufferSolution (through initialize, the sort helpers, clean_buffer_levels and build_solution) for every model of the asserted set; completeness by witnesses; z3",
+         "proof", "Reported level sequence = initial level plus the quantities of the accesses in time order, final level, bounds after every instant, no simultaneous access on a non-concurrent buffer; one buffer with up to 3 accessing tasks (bounded), quantities/levels/bounds symbolic; completeness for 1-2 buffers", "4/C09"),
+ "C14": ("contract-based deductive verification: relational obligations over two symbolic runs of the real code (renamed twin, permuted twin, problem built after unrelated problems), z3",
+         "proof", "Renaming: constraint system of the renamed problem = renamed constraint system; permutation: each order admits the other's schedules up to auxiliary unknowns (A1 => exists aux2. A2 and conversely); earlier problems leave no trace (registries, constraint system, z3 options). Bounded problem family, integers symbolic; z3's behaviour on alpha-equivalent inputs is trusted", "4/C14"),
+ "C16": ("contract-based deductive verification with recording ghosts for pandas/xlsxwriter/files (what is written is proved for all solutions of the shape); JSON round trip and SMT-LIB re-parse only as a bounded native layer",
+         "proof", "to_df/to_csv columns = reported fields; Excel: one block per assignment / scheduled task at columns start+1..end, name column never overwritten, valid colours, indicators sheet; export_to_smt2 writes the text of exactly the stacked formulas for both optimisers. JSON (pydantic) and SMT-LIB text (z3 printer) are checked natively on a grid and reported as bounded", "4/C16"),
+ "C17": ("contract-based deductive verification with recording ghost axes: the bars/labels/step plot handed to matplotlib are proved for all solutions of the shape; the real renderer is run natively (bounded)",
+         "proof", "Resource view: one bar per reported assignment on its resource's row from start to end; task view: one bar per scheduled task, none for unscheduled; zero-length marker centred; centred labels; buffer step function; wrong render mode rejected. That matplotlib draws what it is told is assumed", "4/C17"),
 }
 NOT_YET = {}
 
